@@ -23,8 +23,15 @@ func (v *Validator) Entity(entity types.Entity) error {
 		return v.validateEntity(entity, schemaEntity)
 	}
 
-	// Enum entities are accepted if the type exists
-	if _, ok := v.schema.Enums[et]; ok {
+	// Enum entities: the id must be one of the declared values, and an enumerated entity carries no parents, attributes
+	// or tags (the type checker relies on that: `enum in E` is typed False)
+	if enum, ok := v.schema.Enums[et]; ok {
+		if !slices.Contains(enum.Values, entity.UID) {
+			return newDeserError(fmt.Sprintf("entity %s is not a declared value of enumerated type %q", entity.UID, et))
+		}
+		if entity.Parents.Len() > 0 || entity.Attributes.Len() > 0 || entity.Tags.Len() > 0 {
+			return fmt.Errorf("enumerated entity %s should not have parents, attributes or tags", entity.UID)
+		}
 		return nil
 	}
 
